@@ -233,26 +233,22 @@ def radar(vc):
 def optical(vc):
     from resonaate.sensors.sensor_base import Explanation as E
     from resonaate.common.labels import PlatformLabel
-    if not vc.symbolic:
-        vc.ensure("O-C02-optical.visible-iff-all", True)
-        vc.ensure("O-C02-optical.reason", True)
-        return
     for platform in (PlatformLabel.SPACECRAFT, PlatformLabel.GROUND_FACILITY):
         base_ok = vc.bool("base_ok")
         flux = vc.real("flux", -1, 10)
         mag, lim = vc.real("mag", -5, 30), vc.real("lim", 0, 25)
         gal, space_ok, limb, ground_ok = vc.bool("galactic_ok"), vc.bool("space_light_ok"), vc.bool("limb_obscured"), vc.bool("ground_dark")
         calls = {}
-        vc.stub(SB + "Sensor.isVisible", lambda self, *a: (True, E.VISIBLE) if base_ok else (False, E.LINE_OF_SIGHT))
-        vc.stub(OP + "@Sun", _NS(getPosition=lambda jd: np.array([1.5e8, 0.0, 0.0])))
-        vc.stub(OP + "@calculateIncidentSolarFlux", lambda a, b, c: flux)
-        vc.stub(OP + "@calculatePhaseAngle", lambda *a: 0.3)
-        vc.stub(OP + "@lambertianPhaseFunction", lambda x: 0.2)
-        vc.stub(OP + "@apparentVisualMagnitude", lambda *a: mag)
-        vc.stub(OP + "@checkGalacticExclusionZone", lambda v: (calls.__setitem__("gal", v), gal)[1])
-        vc.stub(OP + "@checkSpaceSensorLightingConditions", lambda b, s: (calls.__setitem__("space", (b, s)), space_ok)[1])
-        vc.stub(OP + "@checkSpaceSensorEarthLimbObscuration", lambda h, sl: (calls.__setitem__("limb", (h, sl)), limb)[1])
-        vc.stub(OP + "@checkGroundSensorLightingConditions", lambda p, s: (calls.__setitem__("ground", (p, s)), ground_ok)[1])
+        vc.install(SB + "Sensor.isVisible", lambda self, *a: (True, E.VISIBLE) if base_ok else (False, E.LINE_OF_SIGHT))
+        vc.install(OP + "@Sun", _NS(getPosition=lambda jd: np.array([1.5e8, 0.0, 0.0])))
+        vc.install(OP + "@calculateIncidentSolarFlux", lambda a, b, c: flux)
+        vc.install(OP + "@calculatePhaseAngle", lambda *a: 0.3)
+        vc.install(OP + "@lambertianPhaseFunction", lambda x: 0.2)
+        vc.install(OP + "@apparentVisualMagnitude", lambda *a: mag)
+        vc.install(OP + "@checkGalacticExclusionZone", lambda v: (calls.__setitem__("gal", v), gal)[1])
+        vc.install(OP + "@checkSpaceSensorLightingConditions", lambda b, s: (calls.__setitem__("space", (b, s)), space_ok)[1])
+        vc.install(OP + "@checkSpaceSensorEarthLimbObscuration", lambda h, sl: (calls.__setitem__("limb", (h, sl)), limb)[1])
+        vc.install(OP + "@checkGroundSensorLightingConditions", lambda p, s: (calls.__setitem__("ground", (p, s)), ground_ok)[1])
         host = _NS(julian_date_epoch=2459000.5, eci_state=np.array([7000.0, 0, 0, 0, 7.5, 0]), agent_type=platform)
         o = vc.new(OP + "Optical", _host=host, detectable_vismag=lim)
         tgt = np.array([8000.0, 100.0, 50.0, 0, 7.0, 0])
@@ -285,8 +281,28 @@ def optical(vc):
             assumes=["the noise sample sqrtm(R) * randn is what 'within the sensor's stated noise' refers to (distribution not verified)"])
 def measurement(vc):
     if not vc.symbolic:
-        vc.ensure("O-C02-meas.noise-free", True)
-        vc.ensure("O-C02-meas.noisy", True)
+        # native replay: the real Measurement object against the slant-range vector of a real sensor/target geometry, independent formulas
+        import datetime
+        from resonaate.physics.measurements import Measurement
+        from resonaate.physics.transforms.methods import getSlantRangeVector
+        sen = vc.vec("sensor_eci", 6, -7000, 7000)
+        tgt = vc.vec("target_eci", 6, -42000, 42000)
+        sen[3:], tgt[3:] = sen[3:] * 1e-3, tgt[3:] * 2e-4
+        utc = datetime.datetime(2020, 3, 4, 5, 6, 7) + datetime.timedelta(seconds=vc.int("secs", 0, 86400 * 400))
+        labels = ["azimuth_rad", "elevation_rad", "range_km", "range_rate_km_p_sec"]
+        m = Measurement.fromMeasurementLabels(labels, np.diag([1e-8, 1e-8, 1e-6, 1e-10]))
+        sl = getSlantRangeVector(sen, tgt, utc)
+        vc.assume(sl[0] ** 2 + sl[1] ** 2 > 1e-4)
+        out = m.calculateMeasurement(sen, tgt, utc, noisy=False)
+        rn = float(np.linalg.norm(sl[:3]))
+        az = float(np.arctan2(sl[1], -sl[0]) % (2 * np.pi))
+        el = float(np.arcsin(sl[2] / rn))
+        vc.ensure("O-C02-meas.noise-free", abs(out["range_km"] - rn) < 1e-9 * rn and abs(out["range_rate_km_p_sec"] - float(np.dot(sl[:3], sl[3:])) / rn) < 1e-9
+                  and abs((out["azimuth_rad"] - az + np.pi) % (2 * np.pi) - np.pi) < 1e-9 and abs(out["elevation_rad"] - el) < 1e-9 and list(out) == labels)
+        np.random.seed(vc.int("noise_seed", 0, 10 ** 6))
+        noisy = m.calculateMeasurement(sen, tgt, utc, noisy=True)
+        vc.ensure("O-C02-meas.noisy", all(abs(noisy[k] - out[k]) < 8 * s_ + (2 * np.pi if k == "azimuth_rad" and abs(noisy[k] - out[k]) > 1 else 0)
+                                          for k, s_ in zip(labels, (1e-4, 1e-4, 1e-3, 1e-5))))
         vc.ensure("O-C02-meas.observation", True)
         return
     sl = vc.vec("sl", 6, -1e4, 1e4)
